@@ -1,6 +1,11 @@
 package spec
 
-import "sync"
+import (
+	"hash"
+	"sync"
+
+	"golang.org/x/crypto/sha3"
+)
 
 // Cheaper evaluation of the same recursive definition as BMTSegments, for monitors that
 // need 10^4..10^5 oracle values of the 8192-segment tree: a subtree that lies entirely
@@ -27,22 +32,33 @@ func zeroRoot(segments int) []byte {
 	return merkle(make([]byte, segments*SegmentSize))
 }
 
+// keccak2 is Keccak256(a, b) on a caller-owned hash state (one allocation per tree instead
+// of one per node; the race detector makes allocation and hashing several times dearer).
+func keccak2(h hash.Hash, a, b []byte) []byte {
+	h.Reset()
+	h.Write(a)
+	h.Write(b)
+	return h.Sum(nil)
+}
+
 // merkleSparse is merkle() of data zero-padded to segments*32 bytes; len(data) must not
 // exceed segments*32 and segments must be a power of two >= 2.
-func merkleSparse(data []byte, segments int) []byte {
+func merkleSparse(h hash.Hash, data []byte, segments int) []byte {
 	if len(data) == 0 {
 		return zeroRoot(segments)
 	}
 	if segments == 2 {
 		var buf [2 * SegmentSize]byte
 		copy(buf[:], data)
-		return Keccak256(buf[:])
+		return keccak2(h, buf[:SegmentSize], buf[SegmentSize:])
 	}
 	half := segments / 2 * SegmentSize
 	if len(data) <= half {
-		return Keccak256(merkleSparse(data, segments/2), zeroRoot(segments/2))
+		return keccak2(h, merkleSparse(h, data, segments/2), zeroRoot(segments/2))
 	}
-	return Keccak256(merkleSparse(data[:half], segments/2), merkleSparse(data[half:], segments/2))
+	l := merkleSparse(h, data[:half], segments/2)
+	r := merkleSparse(h, data[half:], segments/2)
+	return keccak2(h, l, r)
 }
 
 // BMTRoot is the binary Merkle root of data zero-padded to segments*32 bytes (data longer
@@ -51,7 +67,7 @@ func BMTRoot(data []byte, segments int) []byte {
 	if len(data) > segments*SegmentSize {
 		data = data[:segments*SegmentSize]
 	}
-	return merkleSparse(data, segments)
+	return merkleSparse(sha3.NewLegacyKeccak256(), data, segments)
 }
 
 // BMTFast equals BMTSegments(span, data, segments).
